@@ -58,15 +58,20 @@ class Ref:
         have = self.avail()
         if not ro and need > have:
             return False, need, have
-        self.orders.append({'s': s, 'q': q, 'p': p, 'ro': ro, 'live': True})
+        self.orders.append({'s': s, 'q': q, 'p': p, 'ro': ro, 'live': True, 'st': 'ACTIVE'})
         return True, need, have
 
     def cancel(self, i):
+        if self.orders[i]['live']:
+            self.orders[i]['st'] = 'CANCELED'
         self.orders[i]['live'] = False
 
     def execute(self, i):
         o = self.orders[i]
+        if not o['live']:
+            return
         o['live'] = False
+        o['st'] = 'EXECUTED'
         s, q, p = o['s'], o['q'], o['p']
         pos = self.q[s]
         # how much of the order actually fills
@@ -102,8 +107,9 @@ class Ref:
                 self.q[s] = F(0)
                 self.e[s] = None
                 for x in self.orders:      # strategy layer: everything resting on the symbol is cancelled
-                    if x['s'] == s:
+                    if x['s'] == s and x['live']:
                         x['live'] = False
+                        x['st'] = 'CANCELED'
             else:                          # flip: the remainder opens the opposite position
                 self.flags.add('flip')
                 self.q[s] = rest
@@ -183,7 +189,7 @@ class FutSys:
             return None, 'viol'
         if acc != ok:   # inside the dont-care band: follow the implementation
             if acc:
-                self.ref.orders.append({'s': s, 'q': qf, 'p': fr(pr), 'ro': ro, 'live': True})
+                self.ref.orders.append({'s': s, 'q': qf, 'p': fr(pr), 'ro': ro, 'live': True, 'st': 'ACTIVE'})
             else:
                 self.ref.orders.pop()
         if not acc:
@@ -205,8 +211,7 @@ class FutSys:
                 if st == 'viol':
                     return 'ok'
                 if price == 'M':
-                    store.orders.execute_pending_market_orders()
-                    self.ref.execute(len(self.ref.orders) - 1)
+                    self.after_market_submit()
             elif kind == 'ladder':
                 for k in range(op[1]):
                     o, st = self._place(self.syms[0], 'buy', 0.1 * self.u, (0.9 - 0.001 * k) * self.P, False)
@@ -240,6 +245,11 @@ class FutSys:
         except Exception as e:
             self.problems.append(('unexpected-exception', {'op': op[0], 'exc': type(e).__name__}, '%s raised %r' % (op, e)))
             return 'ok'
+
+    def after_market_submit(self):
+        from jesse.store import store
+        store.orders.execute_pending_market_orders()
+        self.ref.execute(len(self.ref.orders) - 1)
 
     # ---------------------------------------------------------------- oracle
     def check(self):
